@@ -146,7 +146,7 @@ def run(prop, tier, seed, t0, replay):
                          {"scenario": "1/2: 2-16 threads each doing new/start/write/close/read out/read err/wait/destroy, starts released by a barrier",
                           "check": "child's descriptor table as found at exec = {0,1,2, one pipe}; EOF on its own stdin while siblings are alive"}]}
     rule = ("repetitions of three threaded scenarios under ThreadSanitizer with seeded sched_yield/usleep(0-200us) delays injected in the "
-            "interposed pipe/fcntl/fork/read/write/close/poll calls (between the library's critical steps); a TSan report counts when the "
+            "interposed pipe/fcntl/fork/read/write/close/poll calls (between the library's critical steps); every thread has its own signal mask and compares it after each barrier-released start; a TSan report counts when the "
             "racing access is in library source; non-trivial/distinct = distinct hashes of the cross-thread order of the first 400 "
             "interposed calls of a repetition (distinct interleavings actually observed)")
     extra_inconclusive = []
